@@ -188,6 +188,20 @@ func d5Extras() []NamedProg {
 			}
 		}
 	}
+	// a stored pattern used by two commands of one source, at different positions
+	for bi, b := range bodies {
+		for _, lay := range []struct {
+			name      string
+			pre, main []*T
+		}{
+			{"two-commands/prefix-then-suffix", []*T{lit("d"), g("s")}, []*T{g("s"), lit("d")}},
+			{"two-commands/same-position", []*T{g("s")}, []*T{g("s"), lit("b")}},
+			{"two-commands/twice-then-once", []*T{g("s"), lit("d"), g("s")}, []*T{lit("b"), g("s")}},
+		} {
+			out = append(out, NamedProg{Variant: lay.name, Context: string(rune('0' + bi)),
+				P: &Prog{Defs: []*GDef{{Name: "s", Body: b}}, Pre: lay.pre, Body: lay.main}})
+		}
+	}
 	// guarded recursion
 	recs := [][]*T{
 		{sub("r", lit("a"), loop(0, 1, false, call("r")), lit("b"))},
